@@ -92,8 +92,9 @@ class USBControlEndpoint(Elaboratable):
         """
         tokenizer = self.interface.tokenizer
 
-        # If we receive a SETUP token, always move back to the SETUP stage.
-        with m.If(tokenizer.new_token & tokenizer.is_setup):
+        # If we receive a SETUP token for our endpoint, always move back to the SETUP stage.
+        endpoint_targeted = (tokenizer.endpoint == self._endpoint_number)
+        with m.If(tokenizer.new_token & tokenizer.is_setup & endpoint_targeted):
             m.next = 'SETUP'
 
 
